@@ -1044,6 +1044,9 @@ func (f *frame) convert(ins *ssa.Convert) Val {
 		t := u.define(f.key+"_"+ins.Name(), Term{"(" + fn + " " + x.S + ")", ts})
 		if !ts.Signed {
 			u.assume(Term{fmt.Sprintf("(=> (and (is_int %[1]s) (<= 0.0 %[1]s) (< %[1]s %[2]s.0)) (= (bv2nat %[3]s) (to_int %[1]s)))", x.S, new(big.Int).Lsh(big.NewInt(1), uint(ts.W)).String(), t.S), sBool})
+		} else {
+			// signed target: stated for non-negative integral values below 2^(w-1) (the sign bit stays clear)
+			u.assume(Term{fmt.Sprintf("(=> (and (is_int %[1]s) (<= 0.0 %[1]s) (< %[1]s %[2]s.0)) (and (= (bv2nat %[3]s) (to_int %[1]s)) (bvsge %[3]s (_ bv0 %[4]d))))", x.S, new(big.Int).Lsh(big.NewInt(1), uint(ts.W-1)).String(), t.S, ts.W), sBool})
 		}
 		_ = tr
 		return t
